@@ -9,7 +9,9 @@ package referenceserver
 //	            which algorithm must a request body be compressed with to be accepted, and which
 //	            algorithm is the response body compressed with when the name is offered in Accept-Encoding.
 //	            All requests go over ONE keep-alive connection, so connect-go's pools reuse the instances.
-//	TestVerifC20Live  corrupted / truncated request bodies before valid ones, through the live server.
+//	c20.live    a sequence of valid / bit-flipped / truncated request bodies of one algorithm over ONE keep-alive
+//	            connection to the live server: every valid one must be answered and decode (with a fresh
+//	            third-party reader) to the echo, whatever was sent before it.
 
 import (
 	"bytes"
@@ -18,6 +20,7 @@ import (
 	"net/http"
 	"net/url"
 	"os"
+	"runtime"
 	"strconv"
 	"strings"
 	"sync"
@@ -33,6 +36,7 @@ import (
 func init() {
 	verifKinds["c20.check"] = verifC20Check
 	verifKinds["c20.server"] = verifC20Server
+	verifKinds["c20.live"] = verifC20Live
 }
 
 // ---------------------------------------------------------------------------
@@ -118,6 +122,10 @@ func verifUnaryBody() []byte {
 
 // one unary Connect call; body as given.  Returns status, response encoding header, response body.
 func verifCall(contentEncoding, acceptEncoding string, body []byte) (int, string, []byte, error) {
+	return verifCallWith(verifClient, contentEncoding, acceptEncoding, body)
+}
+
+func verifCallWith(client *http.Client, contentEncoding, acceptEncoding string, body []byte) (int, string, []byte, error) {
 	addr, err := verifServer()
 	if err != nil {
 		return 0, "", nil, err
@@ -134,7 +142,7 @@ func verifCall(contentEncoding, acceptEncoding string, body []byte) (int, string
 	if acceptEncoding != "" {
 		req.Header.Set("Accept-Encoding", acceptEncoding)
 	}
-	resp, err := verifClient.Do(req)
+	resp, err := client.Do(req)
 	if err != nil {
 		return 0, "", nil, err
 	}
@@ -200,6 +208,129 @@ func verifC20Server(args []vsx) vsx {
 	for _, n := range args[0].l {
 		ra, pa := verifServerAlgs(n.str())
 		out = append(out, vL(vB(n.b), vInt(ra), vInt(pa)))
+	}
+	return vL(out...)
+}
+
+// ---------------------------------------------------------------------------
+// c20.live: sequences over one connection
+// ---------------------------------------------------------------------------
+var verifAlgNames = map[int]string{1: "identity", 2: "gzip", 3: "br", 4: "zstd", 5: "deflate", 6: "snappy"}
+
+// n deterministic bytes that differ per (n, idx)
+func verifPayload(n, idx int) []byte {
+	out := make([]byte, n)
+	for j := range out {
+		out[j] = byte((j*7 + idx*31 + n) % 251)
+	}
+	return out
+}
+
+func verifMod(x, m int64) int64 {
+	if m <= 0 {
+		return 0
+	}
+	return ((x % m) + m) % m
+}
+
+// item (1 n bit): one bit flipped; item (2 n cut): a strict prefix; the single byte 0xff when
+// there is nothing to flip / the prefix would be the whole body
+func verifCorrupt(item vsx, body []byte) []byte {
+	switch item.l[0].i {
+	case 1:
+		if len(body) == 0 {
+			return []byte{0xff}
+		}
+		k := verifMod(item.l[2].i, int64(8*len(body)))
+		out := append([]byte(nil), body...)
+		out[k/8] ^= 1 << uint(k%8)
+		return out
+	case 2:
+		m := int64(len(body))
+		if m < 1 {
+			m = 1
+		}
+		cut := verifMod(item.l[2].i, m)
+		if len(body) == 0 || cut == int64(len(body)) {
+			return []byte{0xff}
+		}
+		return append([]byte(nil), body[:cut]...)
+	}
+	panic("verif: bad item")
+}
+
+// the marshalled request asking for payload(n, idx) back; the EMPTY request for n == 0
+func verifLiveRequest(n, idx int) []byte {
+	if n == 0 {
+		return []byte{}
+	}
+	b, err := proto.Marshal(&conformancev1.UnaryRequest{
+		ResponseDefinition: &conformancev1.UnaryResponseDefinition{
+			Response: &conformancev1.UnaryResponseDefinition_ResponseData{ResponseData: verifPayload(n, idx)},
+		},
+	})
+	if err != nil {
+		panic(err)
+	}
+	return b
+}
+
+// alg ((0 n) | (1 n bit) | (2 n cut) ...) -> ((ok F) | (any) | (err "t") ...)
+func verifC20Live(args []vsx) vsx {
+	alg := int(args[0].i)
+	name, ok := verifAlgNames[alg]
+	if !ok || alg < 2 {
+		panic("verif: bad algorithm tag")
+	}
+	if _, err := verifServer(); err != nil {
+		panic(err)
+	}
+	// connect-go keeps the wrapper instances in sync.Pools, which are per P: with one P the instance put back
+	// after a message is the one handed out for the next message (otherwise the goroutine may have moved to
+	// another P in between and gets a new instance, and a poisoned one would be met only now and then)
+	defer runtime.GOMAXPROCS(runtime.GOMAXPROCS(1))
+	tr := &http.Transport{DisableCompression: true, MaxConnsPerHost: 1, MaxIdleConnsPerHost: 1}
+	defer tr.CloseIdleConnections()
+	client := &http.Client{Transport: tr, Timeout: 30 * time.Second}
+	out := make([]vsx, 0, len(args[1].l))
+	for idx, item := range args[1].l {
+		n := int(item.l[1].i)
+		body := verifLibCompress(alg, verifLiveRequest(n, idx))
+		if item.l[0].i != 0 {
+			_, _, _, err := verifCallWith(client, name, name, verifCorrupt(item, body))
+			if err != nil {
+				if os.Getenv("VERIF_DEBUG") != "" {
+					fmt.Fprintf(os.Stderr, "verif: c20.live item %d: %v\n", idx, err)
+				}
+				out = append(out, vErr("t"))
+			} else {
+				out = append(out, vL(vS("any")))
+			}
+			continue
+		}
+		status, ce, rb, err := verifCallWith(client, name, name, body)
+		good := err == nil && status == http.StatusOK
+		if err != nil && os.Getenv("VERIF_DEBUG") != "" {
+			fmt.Fprintf(os.Stderr, "verif: c20.live item %d: %v\n", idx, err)
+		}
+		if good {
+			var raw []byte
+			switch ce {
+			case "", "identity":
+				raw = rb
+			case name:
+				cls, y := verifLibFresh(alg, 0, rb)
+				good = cls == 1
+				raw = y
+			default:
+				good = false
+			}
+			if good {
+				var r conformancev1.UnaryResponse
+				good = proto.Unmarshal(raw, &r) == nil && bytes.Equal(r.GetPayload().GetData(), verifPayload(n, idx))
+			}
+		}
+		out = append(out, vL(vS("ok"), vBool(good)))
 	}
 	return vL(out...)
 }
